@@ -51,6 +51,12 @@ fn spec_ceil_log2_plus1(x: u32) -> u32 {
     32
 }
 
+/// Closed form of the same number (the bit length of x); used by the other harnesses so that they need no
+/// loop unwinding. `add_log2_ceil_matches_spec` proves it equal to the defining loop for every u32.
+fn spec_width(x: u32) -> u32 {
+    32 - x.leading_zeros()
+}
+
 #[kani::proof_for_contract(add_log2_ceil)]
 fn add_log2_ceil_contract() {
     let x: u32 = kani::any();
@@ -67,6 +73,7 @@ fn add_log2_ceil_contract() {
 fn add_log2_ceil_matches_spec() {
     let x: u32 = kani::any();
     assert!(add_log2_ceil(x) == spec_ceil_log2_plus1(x), "[C04] add_log2_ceil == least k with 2^k >= x + 1");
+    assert!(spec_width(x) == spec_ceil_log2_plus1(x), "[C04] closed form of the spec used by the other harnesses");
     // the call sites: widths of the three IntegerConfig fields and the permutation context
     assert!(add_log2_ceil(5) == 3 && add_log2_ceil(6) == 3 && add_log2_ceil(7) == 3 && add_log2_ceil(8) == 4 && add_log2_ceil(15) == 4,
         "[C04] width of split_exponent for log_alphabet_size 5..8 and 15");
@@ -107,17 +114,17 @@ enum CfgSpec {
 
 /// The standard's parsing procedure evaluated on the abstract view starting at bit `p`.
 fn spec_integer_config(v: &View, p: usize, las: u32) -> CfgSpec {
-    let sb = spec_ceil_log2_plus1(las) as usize;
+    let sb = spec_width(las) as usize;
     if !v.has(p, sb) { return CfgSpec::Eof; }
     let se = v.u(p, sb);
     let mut used = sb;
     let (msb, lsb) = if se != las {
-        let mb = spec_ceil_log2_plus1(se) as usize;
+        let mb = spec_width(se) as usize;
         if !v.has(p + used, mb) { return CfgSpec::Eof; }
         let msb = v.u(p + used, mb);
         used += mb;
         if msb > se { return CfgSpec::Invalid; }
-        let lb = spec_ceil_log2_plus1(se - msb) as usize;
+        let lb = spec_width(se - msb) as usize;
         if !v.has(p + used, lb) { return CfgSpec::Eof; }
         let lsb = v.u(p + used, lb);
         used += lb;
@@ -130,7 +137,7 @@ fn spec_integer_config(v: &View, p: usize, las: u32) -> CfgSpec {
 }
 
 #[kani::proof]
-#[kani::unwind(34)]
+#[kani::unwind(9)]
 fn integer_config_parse_contract() {
     let data: [u8; 16] = kani::any();
     let len: usize = kani::any();
@@ -151,7 +158,7 @@ fn integer_config_parse_contract() {
             assert!(c.split == 1u32 << c.split_exponent, "[C04,C01] split == 1 << split_exponent");
             // NOTE: split_exponent <= log_alphabet_size does NOT hold (las = 5: u(3) can be 6 or 7; las = 8:
             // u(4) can be 9..15; same in libjxl). What holds, and what the decoding kernels need, is:
-            assert!(c.split_exponent < (1u32 << spec_ceil_log2_plus1(las)) && c.split_exponent <= 15,
+            assert!(c.split_exponent < (1u32 << spec_width(las)) && c.split_exponent <= 15,
                 "[C04,C01] split_exponent < 2^ceil(log2(las+1)) <= 16");
             assert!(cfg_wf(c), "[C04,C01] parse establishes the IntegerConfig invariant used by read_uint_prefilled");
         }
